@@ -210,6 +210,11 @@ fn check_valid(r: &Report, net: usize, payload: &RPayload, blinder: &Option<zkp:
     if let RPayload::Wit(..) = payload {
         let up = s.to_ascii_uppercase();
         r.trans(1);
+        match guard(|| Address::parse_with_params(&up, NETS[net])) {
+            Ok(Ok(b)) if b == a => {}
+            Ok(_) => r.violation(format!("uppercase-rejected-by-parse_with_params/{}", kind), case(), format!("upper-case form {} does not parse to the same address under its own network's parameters", up)),
+            Err(p) => r.violation(format!("parse-panic/{}", kind), case(), p),
+        }
         match guard(|| Address::from_str(&up)) {
             Ok(Ok(b)) if b == a => {
                 if b.to_string() != s {
@@ -411,6 +416,32 @@ pub fn run(r: &Report) {
             d2.push(0);
             near.push((addr::encode5(blech, &d2, bvar), "extra-padding-group"));
         }
+        // every single padding bit, at every program length, unblinded and blinded
+        for ver in [0u8, 1, 16] {
+            let lens: Vec<usize> = if ver == 0 { vec![20, 32] } else { (2..=40).collect() };
+            for plen in lens {
+                let prog = gen::blob(plen, ver + 3);
+                for blinded in [false, true] {
+                    let mut payload = if blinded { f.pks[0].to_vec() } else { vec![] };
+                    payload.extend_from_slice(&prog);
+                    let mut d = vec![ver];
+                    d.extend(addr::to5(&payload));
+                    let pad_bits = (d.len() - 1) * 5 - payload.len() * 8;
+                    let var = match (blinded, ver == 0) {
+                        (false, true) => Variant::Bech32,
+                        (false, false) => Variant::Bech32m,
+                        (true, true) => Variant::Blech32,
+                        (true, false) => Variant::Blech32m,
+                    };
+                    for bit in 0..pad_bits {
+                        let mut d1 = d.clone();
+                        let last = d1.len() - 1;
+                        d1[last] |= 1 << bit;
+                        near.push((addr::encode5(if blinded { blech } else { bech }, &d1, var), "nonzero-padding"));
+                    }
+                }
+            }
+        }
         // empty data part / version only
         for var in [Variant::Bech32, Variant::Bech32m] {
             near.push((addr::encode5(bech, &[], var), "empty-data"));
@@ -447,6 +478,7 @@ pub fn run(r: &Report) {
         v.extend_from_slice(&[0x11; 32]);
         v.extend_from_slice(&hash20(2));
         near.push((addr::base58check_encode(&v), "base58-blinded-invalid-key"));
+        near.push((addr::base58check_encode(&[]), "base58-empty-payload"));
         near.push((addr::base58check_encode(&[blp]), "base58-prefix-only"));
         near.push((addr::base58check_encode(&[pkh]), "base58-prefix-only"));
         // bad base58 checksum
